@@ -319,5 +319,12 @@ func bisectAssumptions(o *Obl) {
 			a = a[:1500]
 		}
 		fmt.Printf("   first unsat prefix: %d\n   assertion: %s\n", lo, a)
+		for k := lo - 2; k >= 0 && k >= lo-6; k-- {
+			b := c.asserts[k]
+			if len(b) > 600 {
+				b = b[:600]
+			}
+			fmt.Printf("   assertion %d: %s\n", k+1, b)
+		}
 	}
 }
